@@ -78,6 +78,17 @@ def cases(tier, seed):
                     if mode == 'D' and k == 'fail':
                         continue         # (pdb would start)
                     yield [n, g, kind, hm, 'both', [k, 'pass'], 1, mode]
+    # layer objects of other shapes (falsy instance layers, value-equal
+    # layers with copied bases, name-shadowed layers, dotted-string
+    # declarations): their per-test hooks bracket the tests all the same
+    for n, g, kind in _graphs(3):
+        for shape in ('len0', 'bool0', 'eq', 'shadow', 'lstr'):
+            if kind == 'c' and shape not in ('shadow', 'lstr'):
+                continue
+            for hm in range(1, 1 << n):
+                for k in ('pass', 'fail', 'skip_dec'):
+                    for rep in (1, 2):
+                        yield [n, g, kind, hm, 'both', [k, 'pass'], rep, 'shape:' + shape]
     # -x: the test that stops the run still gets its testTearDown
     for n, g, kind in _graphs(2):
         for hm in range(1, 1 << n):
@@ -144,6 +155,16 @@ def build_spec(case):
         tests.append({'n': 'o' + names[i], 'l': names[i], 's': 'pass'})
     for j, s in enumerate(seq):
         tests.append({'n': 'q%d' % j, 'l': names[n - 1], 's': s})
+    if mode.startswith('shape:'):
+        shape = mode[6:]
+        for L in layers:
+            if shape == 'shadow':
+                L['shadow'] = True
+            elif shape != 'lstr':
+                L['ish'] = shape
+        if shape == 'lstr':
+            for t in tests:
+                t['lstr'] = True
     argv = []
     if rep > 1:
         argv += ['--repeat', str(rep)]
